@@ -34,8 +34,7 @@ def configs(tier, seed):
     for n in (1, 2, 3, 4):
         for nob in NOB:
             out.append(('uniform/1d/n=%d/nob=%s' % (n, nob), dict(kind='uniform', shape=[n], nob=[list(nob)])))
-            if n >= 2:
-                out.append(('index/1d/n=%d/nob=%s' % (n, nob), dict(kind='index', shape=[n], nob=[list(nob)])))
+            out.append(('index/1d/n=%d/nob=%s' % (n, nob), dict(kind='index', shape=[n], nob=[list(nob)])))
             if n >= 3:
                 out.append(('slices/1d/n=%d/nob=%s' % (n, nob), dict(kind='slices', shape=[n], nob=[list(nob)])))
     for shape, nob in (([2, 3], [[True, False], [False, True]]), ([3, 1], [[False, False], [True, True]]),
@@ -50,6 +49,7 @@ def configs(tier, seed):
     out.append(('specs/1d', dict(kind='specs', shape=[3])))
     out.append(('specs/2d', dict(kind='specs', shape=[2, 3])))
     out.append(('insert-append/1d+1d', dict(kind='insert', parts=[[2], [3]])))
+    out.append(('insert-append/1d+1d+1d', dict(kind='insert', parts=[[2], [1], [2]])))
     if tier == 'thorough':
         out.append(('insert-append/2d+1d+1d', dict(kind='insert', parts=[[2, 1], [2], [1]])))
         out.append(('insert-append/1d+2d+1d', dict(kind='insert', parts=[[2], [1, 2], [2]])))
@@ -183,6 +183,11 @@ def case(ctx, kind, shape=None, nob=None, parts=None):
                 cands += [slice(1, None), slice(None, n - 1)]
             if n >= 3:
                 cands += [slice(None, None, 2), slice(1, None, 2), slice(1, n - 1)]
+            # negative bounds count from the end (cells, i.e. one less than the number of boundaries)
+            if n >= 2:
+                cands += [slice(None, -1), slice(-1, None)]
+            if n >= 3:
+                cands += [slice(1, -1), slice(-2, None), slice(-3, -1)]
             per_axis.append(cands)
         combos = list(itertools.product(*per_axis))
         if len(combos) > 12:
@@ -301,6 +306,7 @@ def case(ctx, kind, shape=None, nob=None, parts=None):
             compare('insert-middle', ps[0].insert(ps[0].ndim, ps[1]).append(ps[2]), [0, 1, 2])
             compare('append-two-at-once', ps[0].append(ps[1], ps[2]), [0, 1, 2])
             compare('insert-two-at-once-front', ps[2].insert(0, ps[0], ps[1]), [0, 1, 2])
+            compare('insert-two-at-once/negative-index', ps[2].insert(-ps[2].ndim, ps[0], ps[1]), [0, 1, 2])
         if ctx.canary:
             ctx.eq('canary', lims[0][0][0], lims[0][0][0] + 1)
         return
@@ -337,6 +343,10 @@ def case(ctx, kind, shape=None, nob=None, parts=None):
         same('append-chained', chained, list(range(n)))
         if n >= 3:
             same('insert-two-in-the-middle', ps[0].append(ps[-1]).insert(ps[0].ndim, *ps[1:-1]), list(range(n)))
+            # negative insertion index = counted from the end of the receiving partition, also with several parts
+            same('insert-in-the-middle/negative-index', ps[0].append(ps[-1]).insert(-ps[-1].ndim, *ps[1:-1]),
+                 list(range(n)))
+            same('insert-one/negative-index', ps[0].append(ps[2]).insert(-ps[2].ndim, ps[1]), [0, 1, 2])
         return
     if kind == 'squeeze':
         p, mins, maxs = _uniform(ctx, shape, [[False, False]] * len(shape))
